@@ -276,8 +276,10 @@ def check(src, rep):
     rep.guard(rule_r3, src, rep, writer, reader, fs, names, counts)
     rep.guard(tokenizer.rules_tokenizer, src, rep, fold, "R5", counts)
     rep.guard(tokenizer.rules_parse_loop, src, rep, "R6")
-    from .c01 import cache_coherence
+    from .c01 import cache_coherence, joining
     rep.guard(cache_coherence, src, rep)
+    # R3 composes single-run round trips: that needs str(f) to be the runs' own strings joined in order (C01's J rules)
+    rep.guard(joining, src, rep, it, writer)
     rep.extracted["counts"] = counts
     rep.floor("supported SGR codes read", counts.get("supported_codes", 0), 20)
     rep.floor("round-trip attribute sets", counts.get("round_trip_sets", 0), 5000)
